@@ -6,6 +6,7 @@ import hashlib, json, os, random, re, subprocess, sys, time, shutil, glob
 VERIF = os.path.dirname(os.path.dirname(os.path.abspath(__file__)))
 REPO = os.environ.get("VERIF_REPO", "/repo")
 BUILD = os.environ.get("VERIF_BUILD", os.path.join(VERIF, "build"))
+OBJ = os.path.join(BUILD, "obj-%d" % os.getpid())      # per-process binaries: concurrent checks never share them
 SPEC = os.path.join(VERIF, "spec")
 JAVA_CP = "/opt/veriftools/tla/tla2tools.jar:/opt/veriftools/tla/CommunityModules-deps.jar"
 SEED = int(os.environ.get("VERIF_SEED", "1") or 1)
@@ -21,16 +22,22 @@ def sh(cmd, **kw):
 
 
 # ----------------------------------------------------------------------------- build
+def _cleanup():
+    shutil.rmtree(OBJ, ignore_errors=True)
+
+
 def build(*variants):
+    import atexit
+    atexit.register(_cleanup)
     r = sh([os.path.join(VERIF, "bin", "build")] + list(variants), capture_output=True, text=True,
-           env=dict(os.environ, VERIF_REPO=REPO, VERIF_BUILD=BUILD))
+           env=dict(os.environ, VERIF_REPO=REPO, VERIF_BUILD=OBJ))
     if r.returncode != 0:
         raise Infra("library build failed:\n" + r.stdout + r.stderr)
 
 
 def build_harness(name, variant="plain", extra=()):
     """compile /verif/harness/<name>.c against the freshly built library"""
-    d = os.path.join(BUILD, variant)
+    d = os.path.join(OBJ, variant)
     flags = open(os.path.join(d, "flags")).read().split()
     out = os.path.join(d, name)
     cmd = flags + ["-std=gnu11", "-w", "-DASSEMBLYLINE_VERIF", "-I" + os.path.join(REPO, "src"),
@@ -151,6 +158,11 @@ def render(ast):
     return t
 
 
+def toktext(toks):
+    """token sequence of a lexical corpus record -> text ("<hh>" is the byte hh)"""
+    return "".join(chr(int(t[1:3], 16)) if re.fullmatch(r"<[0-9a-f]{2}>", t) else t for t in toks)
+
+
 def klass(rec):
     """class key used for class-covering sampling and for distinct_nontrivial"""
     ast = rec.get("ast")
@@ -201,14 +213,15 @@ def sample(recs, n, seed):
 
 def run_lines(recs, ctx="solo0", modes="plain", opts="all", chunk=8, variant="plain", jobs=None, timeout=3600):
     """run the real library (freshly built `variant`) on every record; returns list of events (rec + runs)"""
-    exe = os.path.join(BUILD, variant, "linerun")
+    exe = os.path.join(OBJ, variant, "linerun")
     jobs = jobs or NCPU
     work = os.path.join(BUILD, "work")
     os.makedirs(work, exist_ok=True)
     # ids
     for i, r in enumerate(recs):
         r.setdefault("id", "%s-%06d" % (r.get("prop", "X"), i))
-        r["text"] = render(r["ast"]) if "text" not in r else r["text"]
+        if "text" not in r:
+            r["text"] = toktext(r["toks"]) if "toks" in r else render(r["ast"])
     shards = [recs[i::jobs] for i in range(jobs)]
     procs = []
     for si, sh_ in enumerate(shards):
@@ -264,7 +277,7 @@ def monitor(events, module="EncTrace", shards=None, timeout=3000):
         tr = os.path.join(work, "trace-%d-%d.ndjson" % (os.getpid(), si))
         with open(tr, "w") as f:
             for e in part:
-                ev = {k: v for k, v in e.items() if k in ("id", "prop", "status", "ast", "runs", "fault")}
+                ev = {k: v for k, v in e.items() if k in ("id", "prop", "status", "ast", "runs", "fault", "canon", "vars")}
                 f.write(json.dumps(ev) + "\n")
         tag = "mon-%d-%d" % (os.getpid(), si)
         meta = os.path.join(BUILD, "tlc", tag)
@@ -360,7 +373,7 @@ def write_evidence(prop, tier, level, coverage, wall, violations, assumptions):
 def write_replay(prop, name, obj):
     d = os.path.join(VERIF, "build", "replay")
     os.makedirs(d, exist_ok=True)
-    p = os.path.join(d, "%s-%s.json" % (prop, name))
+    p = os.path.join(d, "%s-%s.json" % (prop, re.sub(r"[^A-Za-z0-9_.#-]", "_", name)))
     with open(p, "w") as f:
         json.dump(obj, f, indent=1)
     return p
